@@ -189,6 +189,23 @@ CHECKS = {
         "known_findings.json.",
         "DESIGN.md 4/C14",
     ),
+    "C15": (
+        "model_checking",
+        "explicit-state exploration: every item sequence up to a length x 4 prefixes, operated by "
+        "group/ungroup/resequence/EVERY permutation of the top-level items/sort/reverse on the real "
+        "Acl, invariants (ACE multiset, text, block integrity, restored order, TCAM formula) checked "
+        "in every state",
+        "All sequences with repetition of <=4 (quick) / <=5 (thorough) items over 10 items (two "
+        "headings, a repeated heading, a plain remark, ACEs, ACEs with address-group members on one "
+        "or both sides) x prefixes {'= ', '=', no match, empty}: multiset of ACE lines constant under "
+        "every operation; with distinct headings group/ungroup leave the text unchanged; after "
+        "resequence, for every permutation of the top-level items applied with list methods the text "
+        "is the concatenation of intact blocks, and sort() restores the numbered text; tcam_count() "
+        "equals the formula in every state.",
+        "Trusted: the TCAM formula as stated in the property; blocks merged by a repeated heading "
+        "are only required to conserve ACEs.",
+        "DESIGN.md 4/C15",
+    ),
     "C19": (
         "exploration",
         "complete enumeration of (source expression, destination expression) pairs x context "
